@@ -862,11 +862,12 @@ theorem updatePhase_frame (l : FLink F) (now : Nat) :
 
 /-- What the per-link housekeeping pass of classic mode does to one link's window and congestion
 state: either the link takes the reconnect branch (timed out and a reconnect attempt is due; it is
-reset to the initial window 20000, disconnected, registering, fresh congestion state), or both are
-left exactly as they were. -/
+reset to the initial window 20000, disconnected, registering, fresh congestion state — or, when the
+socket re-creation failed and the link was only marked for recovery, the congestion state it had), or
+both are left exactly as they were. -/
 def HkRel (now : Nat) (l l' : FLink F) : Prop :=
   (l.isTimedOut now = true ∧ l.shouldAttemptReconnect now = true ∧ l'.core.window = 20000 ∧
-    l'.core.connected = false ∧ l'.core.phase = .registering ∧ l'.core.cong = {}) ∨
+    l'.core.connected = false ∧ l'.core.phase = .registering ∧ (l'.core.cong = {} ∨ l'.core.cong = l.core.cong)) ∨
   (l'.core.window = l.core.window ∧ l'.core.cong = l.core.cong)
 
 /-- Pointwise relation between two lists of equal length. -/
@@ -885,10 +886,13 @@ theorem PW_cons {α : Type} {R : α → α → Prop} {x y : α} {xs ys : List α
     exact ⟨y, rfl, h⟩
   | succ j => exact ht.2 j a (by simpa using ha)
 
-theorem hkLinksGo_PW (now : Nat) (ls : List (FLink F)) (i : Nat) (reg : Reg.Reg) :
-    PW (HkRel now) ls (hkLinksGo true now ls i reg).1 := by
+theorem recordAttempt_core (l : FLink F) (now : Nat) : (l.recordAttempt now).core = l.core := by
+  unfold FLink.recordAttempt; split <;> rfl
+
+theorem hkLinksGo_PW (now : Nat) (ls : List (FLink F)) (i : Nat) (reg : Reg.Reg) (fb : List Nat) :
+    PW (HkRel now) ls (hkLinksGo true now ls i reg fb).1 := by
   have hI := wconsts.2.2.1
-  induction ls generalizing i reg with
+  induction ls generalizing i reg fb with
   | nil => exact PW_nil _
   | cons l rest ih =>
     rw [hkLinksGo]
@@ -896,34 +900,27 @@ theorem hkLinksGo_PW (now : Nat) (ls : List (FLink F)) (i : Nat) (reg : Reg.Reg)
     · rename_i hto
       split
       · rename_i hra
-        split
-        · split
+        -- the socket re-creation fails (`mark_for_recovery`) or succeeds (`reset_for_reconnect`)
+        have hcg : (l.recordAttempt now).markForRecovery.core.cong = l.core.cong := by
+          show (l.recordAttempt now).core.cong = _
+          rw [recordAttempt_core]
+        cases hf : fb.contains l.core.connId <;> simp only [hf, Bool.false_eq_true, if_false, if_true]
+        all_goals
+          split
           · split
-            rename_i reg1 pkt hb
-            split
-            rename_i r reg2 w heq
-            have e := congrArg Prod.fst heq
-            dsimp only at e ⊢
-            rw [← e]
-            exact PW_cons (Or.inl ⟨hto, hra, hI, rfl, rfl, rfl⟩) (ih _ _)
-          · split
-            rename_i r reg2 w heq
-            have e := congrArg Prod.fst heq
-            dsimp only at e ⊢
-            rw [← e]
-            exact PW_cons (Or.inl ⟨hto, hra, hI, rfl, rfl, rfl⟩) (ih _ _)
-        · split
-          rename_i r reg2 w heq
-          have e := congrArg Prod.fst heq
-          dsimp only at e ⊢
-          rw [← e]
-          exact PW_cons (Or.inl ⟨hto, hra, hI, rfl, rfl, rfl⟩) (ih _ _)
+            all_goals
+              first
+                | exact PW_cons (Or.inl ⟨hto, hra, hI, rfl, rfl, Or.inl rfl⟩) (ih _ _ _)
+                | exact PW_cons (Or.inl ⟨hto, hra, hI, rfl, rfl, Or.inr hcg⟩) (ih _ _ _)
+          · first
+              | exact PW_cons (Or.inl ⟨hto, hra, hI, rfl, rfl, Or.inl rfl⟩) (ih _ _ _)
+              | exact PW_cons (Or.inl ⟨hto, hra, hI, rfl, rfl, Or.inr hcg⟩) (ih _ _ _)
       · split
         rename_i r reg2 w heq
         have e := congrArg Prod.fst heq
         dsimp only at e ⊢
         rw [← e]
-        exact PW_cons (Or.inr ⟨rfl, rfl⟩) (ih _ _)
+        exact PW_cons (Or.inr ⟨rfl, rfl⟩) (ih _ _ _)
     · split
       rename_i l1 w1 h1
       split
@@ -935,7 +932,7 @@ theorem hkLinksGo_PW (now : Nat) (ls : List (FLink F)) (i : Nat) (reg : Reg.Reg)
         split at h2 <;>
           (have e2 := congrArg Prod.fst h2; dsimp only at e2; subst e2; exact ⟨rfl, rfl⟩)
       simp only [Bool.not_true, Bool.false_eq_true, if_false]
-      refine PW_cons (Or.inr ?_) (ih _ _)
+      refine PW_cons (Or.inr ?_) (ih _ _ _)
       obtain ⟨u1, u2⟩ := updatePhase_frame ({ l2 with bitrate := l2.bitrate.calculate now } : FLink F) now
       exact ⟨u1.trans (f2.1.trans f1.1), u2.trans (f2.2.trans f1.2)⟩
 
@@ -969,7 +966,8 @@ def StampRel (l l' : FLink F) : Prop :=
 
 def TickRel (now : Nat) (l l' : FLink F) : Prop :=
   (l'.core.window = l.core.window ∧ l'.core.cong = l.core.cong) ∨
-  (l'.core.window = 20000 ∧ l'.core.connected = false ∧ l'.core.phase = .registering ∧ l'.core.cong = {} ∧
+  (l'.core.window = 20000 ∧ l'.core.connected = false ∧ l'.core.phase = .registering ∧
+    (l'.core.cong = {} ∨ l'.core.cong = l.core.cong) ∧
     ∃ g, ({ l with graceDeadline := g } : FLink F).isTimedOut now = true ∧
          ({ l with graceDeadline := g } : FLink F).shouldAttemptReconnect now = true)
 
@@ -1002,11 +1000,11 @@ def hkStamp (sends : Reg.DriverSends) (now : Nat) (ls1 : List (FLink F)) : List 
 theorem handleHousekeeping_links (s : Sys F) (now : Nat) :
     ∃ sends : Reg.DriverSends,
       (handleHousekeeping s now).1.links =
-        hkStamp sends now (hkLinksGo s.cfg.classic now (hkPrep s now).2 0 (hkPrep s now).1).1 := by
+        hkStamp sends now (hkLinksGo s.cfg.classic now (hkPrep s now).2 0 (hkPrep s now).1 s.failBind).1 := by
   unfold handleHousekeeping hkStamp hkPrep
   dsimp only
   generalize hp : (if Reg.isProbing _ = true then _ else _ : Reg.Reg × List (FLink F)) = p
-  generalize hr : hkLinksGo s.cfg.classic now p.2 0 p.1 = r
+  generalize hr : hkLinksGo s.cfg.classic now p.2 0 p.1 s.failBind = r
   generalize hq : Reg.regDriverPendingSends _ now = q
   obtain ⟨reg4, sends⟩ := q
   obtain ⟨r1, r2, r3⟩ := r
@@ -1079,9 +1077,9 @@ theorem handleHousekeeping_PW (s : Sys F) (now : Nat) (hc : s.cfg.classic = true
   obtain ⟨sends, e⟩ := handleHousekeeping_links s now
   rw [e, hc]
   have h1 := hkPrep_PW s now
-  have h2 := hkLinksGo_PW now (hkPrep s now).2 0 (hkPrep s now).1
-  have h3 := hkStamp_PW sends now (hkLinksGo true now (hkPrep s now).2 0 (hkPrep s now).1).1
-  have h12 : PW (TickRel now) s.links (hkLinksGo true now (hkPrep s now).2 0 (hkPrep s now).1).1 := by
+  have h2 := hkLinksGo_PW now (hkPrep s now).2 0 (hkPrep s now).1 s.failBind
+  have h3 := hkStamp_PW sends now (hkLinksGo true now (hkPrep s now).2 0 (hkPrep s now).1 s.failBind).1
+  have h12 : PW (TickRel now) s.links (hkLinksGo true now (hkPrep s now).2 0 (hkPrep s now).1 s.failBind).1 := by
     refine PW_trans ?_ h1 h2
     rintro l l0 l1 ⟨g, rfl⟩ (⟨a, b, c, d, e, f⟩ | ⟨a, b⟩)
     · exact Or.inr ⟨c, d, e, f, g, a, b⟩
@@ -1089,7 +1087,7 @@ theorem handleHousekeeping_PW (s : Sys F) (now : Nat) (hc : s.cfg.classic = true
   refine PW_trans ?_ h12 h3
   rintro l l1 l2 (⟨a, b⟩ | ⟨a, b, c, d, e⟩) ⟨p, q, r, t⟩
   · exact Or.inl ⟨p.trans a, q.trans b⟩
-  · exact Or.inr ⟨p.trans a, r.trans b, t.trans c, q.trans d, e⟩
+  · exact Or.inr ⟨p.trans a, r.trans b, t.trans c, d.imp (q.trans ·) (q.trans ·), e⟩
 
 /-! ## Uplink datagrams and the periodic flush -/
 
